@@ -454,8 +454,8 @@ PROPS["C09"] = dict(
 )
 
 PROPS["C10"] = dict(
-    suites=["c10"],
-    shards={"c10": 4},
+    suites=["c10", "c10r"],
+    shards={"c10": 4, "c10r": 1},
     lean_modules=["ServlinVerif.Props.C10"],
     audit="Audit/C10.lean",
     rule="full server over loopback with a cache directory: uploads of known / unknown length / Expect, lengths {200, 8192, 70000} (thorough: "
@@ -464,7 +464,7 @@ PROPS["C10"] = dict(
          "{0, 1, mid-buffer, buffer boundary, len-1, len, len+1}; the cache dir is listed after each scenario. Non-trivial = an upload file "
          "was created (second handler call or truncated upload).",
     nontrivial=lambda tag, args, obs: True,
-    klass=lambda tag, args, obs: "c10:%s:cache=%s" % (re.sub(r"[0-9]+", "N", args[2]), args[1]),
+    klass=lambda tag, args, obs: "c10r:revoked-while-handler-owns-upload" if tag == "c13" else "c10:%s:cache=%s" % (re.sub(r"[0-9]+", "N", args[2]), args[1]),
     explanation="Upload files are part of the connection model (created ids, live set); readBodyToFile_files: an upload either hands over exactly "
                 "one new file owned by the returned body or leaves none - for every input, limit and disk fault; C10_exchange_no_leak and "
                 "C10_no_leak: after every exchange, and at the end of handle_http_conn, the live set equals the initial one, for every handler "
